@@ -124,6 +124,7 @@ func Load(opt LoadOptions) *Program {
 		p.Pkgs = append(p.Pkgs, pkg)
 		p.Fset = pkg.Fset
 	}
+
 	sort.Slice(p.Pkgs, func(i, j int) bool { return p.Pkgs[i].PkgPath < p.Pkgs[j].PkgPath })
 	if len(p.Pkgs) < expectedPackages {
 		broken("loaded %d servitor packages, expected at least %d", len(p.Pkgs), expectedPackages)
@@ -131,9 +132,28 @@ func Load(opt LoadOptions) *Program {
 	prog, _ := ssautil.AllPackages(initial, ssa.InstantiateGenerics)
 	prog.Build()
 	p.SSA = prog
+	if opt.Tests {
+		for _, pkg := range p.Pkgs {
+			var keep []*ast.File
+			for _, f := range pkg.Syntax {
+				if !strings.HasSuffix(p.Fset.Position(f.Pos()).Filename, "_test.go") {
+					keep = append(keep, f)
+				}
+			}
+			pkg.Syntax = keep
+		}
+	}
 	all := ssautil.AllFunctions(prog)
 	for fn := range all {
 		if p.IsServitorFunc(fn) && fn.Blocks != nil {
+			// rules speak about the program, not about its tests: functions
+			// declared in _test.go files (test variant) are not analysed
+			if pos := fn.Pos(); pos.IsValid() && strings.HasSuffix(p.Fset.Position(pos).Filename, "_test.go") {
+				continue
+			}
+			if par := fn.Parent(); par != nil && par.Pos().IsValid() && strings.HasSuffix(p.Fset.Position(par.Pos()).Filename, "_test.go") {
+				continue
+			}
 			p.Funcs = append(p.Funcs, fn)
 		}
 	}
